@@ -9,7 +9,7 @@ export VERIF_REPO=$R
 for d in seeded/C*; do
   p=$(python3 -c "import json,sys; print(json.load(open('$d/meta.json'))['property'])")
   case " $* " in *" $p "*) ;; *) continue;; esac
-  git -C $R apply $d/patch.diff || { echo "$d APPLY-FAIL"; continue; }
+  git -C $R apply $PWD/$d/patch.diff || { echo "$d APPLY-FAIL"; continue; }
   timeout 3000 ./check $p --tier quick > /tmp/_snap_$$.log 2>&1; rc=$?
   git -C $R checkout -- .
   v=$(grep -m1 "^VIOLATION" /tmp/_snap_$$.log | cut -c1-160)
